@@ -241,6 +241,8 @@ pub proof fn lemma_step_bg(st0: ansi_term::Style, st1: ansi_term::Style, fl0: (b
 //@until <<<for word in s>>>
 //@tail { proof { reveal(ps_inv); lemma_no_words(style_words_spec(s@)); } (style, ${FL}) }
 //@| ensures ps_inv(r.0, r.1, style_words_spec(s@), 0, ${ENV}),  // @C12:before.the.first.word.the.style.is.plain
+//@localdefault seen_omit: bool = false
+//@localdefault seen_raw: bool = false
 
 // (2) the loop body: one more word.  The same region is verified several times with different ghost instrumentation,
 // because the solver's cost grows exponentially with the number of branches of the if-chain that carry a proof step
